@@ -272,11 +272,11 @@ class World:
         return d, files
 
     # -- commands (each on a fresh Repository object, like a fresh process)
-    async def snapshot(self, user, src_dir, files, backend=None, note=None, record=True, fresh=False):
+    async def snapshot(self, user, src_dir, files, backend=None, note=None, record=True, fresh=False, rate_limit=None):
         r = await self.unlocked(user, backend, fresh=fresh)
         calls = getattr(self.backend, 'calls', [])
         before = sum(1 for c in calls if c[0] == 'upload_stream')
-        res = await r.snapshot(paths=list(src_dir) if isinstance(src_dir, (list, tuple)) else [src_dir], note=note)
+        res = await r.snapshot(paths=list(src_dir) if isinstance(src_dir, (list, tuple)) else [src_dir], note=note, rate_limit=rate_limit)
         uploaded = [c[1] for c in calls[0:] if c[0] == 'upload_stream'][before:]
         if not record:
             return res, {r._chunk_digest_to_location(d): (user['fam'], self.did(d)) for d in res.chunks}
@@ -597,8 +597,10 @@ def run_history(seed, scratch: Path, rep: Report, *, nops, weights, checks, conc
                 else:
                     src_dir, files = world.make_files(user['name'])
                     all_present = False
-                res, uploaded = await cmd(world.snapshot(user, src_dir, files), 'snapshot')
-                descr.append(['snapshot', user['name'], res.name[:8]])
+                # any rate limit (the limiter's pauses are skipped, see below): what is stored must not depend on it
+                rl = rng.choice([None, None, 64, 300, 5000]) if kind == 'repeat' or rng.random() < 0.2 else None
+                res, uploaded = await cmd(world.snapshot(user, src_dir, files, rate_limit=rl), 'snapshot')
+                descr.append(['snapshot', user['name'], res.name[:8]] + ([f'limit={rl}'] if rl else []))
                 ops_model.append(('snap', user['uid'], user['fam'], world.snaps[res.name]['sid'], [world.did(d) for d in res.chunks]))
                 if 'dedup' in checks:
                     newobjs = set(world.backend.objects) - set(before_objects)
@@ -845,6 +847,19 @@ def run_history(seed, scratch: Path, rep: Report, *, nops, weights, checks, conc
         return world
 
     import replicat.repository as _R
+    import replicat.utils as _U
+    import time as _time_mod
+
+    class _NoPause:
+        # the rate limiter's pauses are not waited for (the histories are about what is stored, not when)
+        def __getattr__(self, name):
+            return getattr(_time_mod, name)
+
+        @staticmethod
+        def sleep(seconds):
+            return None
+    saved_time = _U.time
+    _U.time = _NoPause()
     jitter = rng.random() < 0.35
     saved_pool = _R.ThreadPoolExecutor
     if jitter:
@@ -855,6 +870,7 @@ def run_history(seed, scratch: Path, rep: Report, *, nops, weights, checks, conc
             world = asyncio.run(go())
     finally:
         _R.ThreadPoolExecutor = saved_pool
+        _U.time = saved_time
     rep.count('thread_pool_jitter' if jitter else 'thread_pool_plain')
     rep.count('cache=' + str(world.cache_mode))
     rep.count('encrypted' if encrypted else 'unencrypted')
